@@ -159,6 +159,12 @@ impl Check for C15 {
                     ("\\p{Lowercase}", "\\p{Lowercase:No}"),
                     ("\\pL", "\\p{L=x}"),
                     ("[\\p{Math}a]", "[\\p{Math=Yes}a]"),
+                    // spellings a loose matcher would identify with a supported name
+                    ("\\p{Alphabetic}", "\\p{alphabetic}"),
+                    ("\\p{Lowercase}", "\\p{LOWERCASE}"),
+                    ("\\P{White_Space}", "\\P{white_space}"),
+                    ("\\p{White_Space}", "\\p{WhiteSpace}"),
+                    ("\\p{Uppercase}", "\\p{ Uppercase}"),
                 ]);
                 // the supported one goes into the first pattern of the first mode (registered first)
                 modes[0].pats[0].rx = Rx::Concat(vec![modes[0].pats[0].rx.clone(), Rx::Raw(good.to_string())]);
@@ -270,7 +276,21 @@ impl Check for C15 {
                             must_err.get_or_insert(format!("{:?}: {}", s, why));
                         }
                         BuildVerdict::Either => {
-                            either = true;
+                            // the statement leaves open whether this string builds - but not that
+                            // the answer depends on its neighbours: if it is rejected when it stands
+                            // alone it must be rejected here too
+                            let alone = guard(|| {
+                                scnr::ScannerBuilder::new()
+                                    .add_scanner_mode(scnr::ScannerMode::new("ALONE", vec![scnr::Pattern::new(s.clone(), 0)], vec![]))
+                                    .build_uncached()
+                                    .map(|_| ())
+                            });
+                            if let Ok(Err(e)) = alone {
+                                must_err.get_or_insert(format!("{:?}, which is rejected when it stands alone ({})", s, e));
+                                st.count("rejected_alone");
+                            } else {
+                                either = true;
+                            }
                             if is_raw {
                                 any_parses_raw = true;
                             }
